@@ -29,7 +29,7 @@ def PStruct.slice (s : PStruct α) (st n : Nat) : PStruct α :=
 def chunkedSlice : List (PStruct α) → Nat → Nat → List (PStruct α)
   | [], _, _ => []
   | ch :: rest, st, n =>
-    if st ≥ ch.len ∧ ch.len > 0 then chunkedSlice rest (st - ch.len) n
+    if st ≥ ch.len then chunkedSlice rest (st - ch.len) n
     else
       let k := min n (ch.len - st)
       ch.slice st k :: chunkedSlice rest 0 (n - k)
@@ -56,7 +56,7 @@ def PList.valueLengths (l : PList α) : List (Option Nat) :=
 
 /-- `take` with optional (masked) indices; an out-of-range index is an IndexError. -/
 def gather {β : Type} (idx : List (Option Nat)) (xs : List β) : List (Option β) :=
-  idx.map fun o => match o with | none => none | some i => xs[i]?
+  idx.map fun o => o.bind fun i => xs[i]?
 
 def PList.take (l : PList α) (idx : List (Option Nat)) : PList α :=
   PList.ofRows ((gather idx l.rows).map Option.join)
